@@ -111,9 +111,20 @@ func (x *FnExec) call(fr *Frame, cc *ssa.CallCommon, instr ssa.Value, st *State,
 	if cc.IsInvoke() {
 		args = append(args, fr.val(cc.Value))
 	}
+	var static []types.Type
+	if cc.IsInvoke() {
+		static = append(static, nil)
+	}
 	for _, a := range cc.Args {
 		args = append(args, fr.val(a))
+		if mi, ok := a.(*ssa.MakeInterface); ok {
+			static = append(static, mi.X.Type())
+		} else {
+			static = append(static, nil)
+		}
 	}
+	x.curStatic = static
+	defer func() { x.curStatic = nil }()
 	if strings.HasPrefix(key, "sync/atomic.") {
 		if r, ok := x.atomicIntrinsic(fr, key, cc, args, st, g); ok {
 			return r, g
@@ -159,6 +170,12 @@ func (x *FnExec) call(fr *Frame, cc *ssa.CallCommon, instr ssa.Value, st *State,
 				return x.contractCall(c, cc.Signature(), fv.fn.String(), args, st, g, pos), g
 			}
 			return x.inlineCall(fr, fv.fn, x.E.cs.Contracts[fv.fn.String()], args, fv.binds, st, g)
+		}
+	}
+	if !cc.IsInvoke() && cc.StaticCallee() == nil {
+		fk := "funcval:" + typeKey(cc.Value.Type())
+		if c := x.E.cs.Contracts[fk]; c != nil {
+			return x.contractCall(c, cc.Signature(), fk, args, st, g, pos), g
 		}
 	}
 	// unknown callee: everything modelled may change
@@ -248,11 +265,16 @@ func (x *FnExec) inlineCall(fr *Frame, fn *ssa.Function, c *Contract, args []Val
 // contractCall: modular call against the callee's contract.
 func (x *FnExec) contractCall(c *Contract, sig *types.Signature, key string, args []Value, st *State, g *Term, pos token.Pos) Value {
 	tc := x.tc
+	static := x.curStatic
+	x.curStatic = nil
 	if c.Trusted {
 		x.trustedUsed[shortKey(c.Key)] = true
 	}
 	if (c.Mode == "bv") != x.bv {
-		unsupp("call from %s-mode function into %s-mode contract %s", x.top.Mode, c.Mode, c.Key)
+		if x.bv {
+			unsupp("call from bv-mode function into int-mode contract %s", c.Key)
+		}
+		x.crossMode[shortKey(c.Key)] = true
 	}
 	env := map[string]TV{}
 	var ptypes []types.Type
@@ -273,6 +295,12 @@ func (x *FnExec) contractCall(c *Contract, sig *types.Signature, key string, arg
 	}
 	for i, n := range c.ParamNames {
 		env[n] = TV{args[i], ptypes[i]}
+	}
+	payload := map[string]types.Type{}
+	for i, n := range c.ParamNames {
+		if i < len(static) && static[i] != nil {
+			payload[n] = static[i]
+		}
 	}
 	ev := &SpecEnv{x: x, vars: env, cur: st, old: st, c: c, pkgPath: c.Pkg}
 	for i, r := range c.Requires {
@@ -302,6 +330,7 @@ func (x *FnExec) contractCall(c *Contract, sig *types.Signature, key string, arg
 			mev.vars[k] = v
 		}
 		mev.bindResults(c, rt, res)
+		mev.payload = payload
 		for _, m := range c.Modifies {
 			x.havocLoc(mev, m.E, frozen, st)
 		}
@@ -367,6 +396,47 @@ func (x *FnExec) havocLoc(ev *SpecEnv, e SExpr, pre, st *State) {
 			x.addFact(tc.Forall([]*Term{i}, tc.Implies(outside, tc.Eq(tc.Select(newA, i), tc.Select(oldA, i)))))
 			st.setHeap(key, tc.Store(h, sl.arr, newA))
 		}
+	case *SCall:
+		if id, ok := m.Fun.(*SIdent); ok && id.Name == "pointee" {
+			// pointee(p): the object an interface parameter holds a pointer to (type known statically at the call site)
+			pn, ok := m.Args[0].(*SIdent)
+			if !ok {
+				unsupp("pointee: argument must be a parameter name")
+			}
+			pt := ev.payload[pn.Name]
+			if pt == nil {
+				unsupp("pointee(%s): dynamic type of the argument is not statically known at this call", pn.Name)
+			}
+			a := ev.eval(m.Args[0])
+			id := a.v.(*Term)
+			var ls []leaf
+			x.leaves(pt, "", &ls)
+			ref := tc.UF("unbox:"+typeKey(pt)+ls[0].path, ls[0].sort, id)
+			obj := deref(pt)
+			loc := &Place{kind: pkHeap, ref: ref, obj: obj}
+			prefix, t, _ := x.placeKey(loc)
+			nv := x.freshVal("mod.pointee", t)
+			x.inputFacts(st, nv, t)
+			x.storeTyped(st, loc, prefix, t, nv)
+			return
+		}
+		if id, ok := m.Fun.(*SIdent); ok && id.Name == "ghost" && len(m.Args) == 2 {
+			if w, ok := m.Args[1].(*SIdent); ok && w.Name == "_" {
+				gp := ev.ghostPlaceRef(m, x.refConst(0))
+				prefix, _, _ := x.placeKey(gp)
+				hs := x.heapSort(gp, x.scalarSort(gp.obj))
+				st.setHeap(prefix, tc.Fresh("modall|"+prefix, hs))
+				return
+			}
+		}
+		loc := ev.evalPlace(e)
+		if loc == nil {
+			unsupp("modifies %s: not a location", showSpec(e))
+		}
+		prefix, t, _ := x.placeKey(loc)
+		nv := x.freshVal("mod."+sanitize(showSpec(e)), t)
+		x.inputFacts(st, nv, t)
+		x.storeTyped(st, loc, prefix, t, nv)
 	default:
 		loc := ev.evalPlace(e)
 		if loc == nil {
@@ -425,13 +495,13 @@ func (x *FnExec) builtin(fr *Frame, b *ssa.Builtin, cc *ssa.CallCommon, st *Stat
 		var n *Term
 		if src, ok := fr.val(cc.Args[1]).(*SliceV); ok {
 			n = tc.Ite(x.intLe(dst.ln, src.ln), dst.ln, src.ln)
-			x.copyElems(st, et, dst, src, n)
+			x.copyElems(st, et, dst, src, n, g)
 		} else {
 			// copy(dst, string)
 			s := fr.val(cc.Args[1]).(*Term)
 			sl := x.stringToBytes(st, s)
 			n = tc.Ite(x.intLe(dst.ln, sl.ln), dst.ln, sl.ln)
-			x.copyElems(st, et, dst, sl, n)
+			x.copyElems(st, et, dst, sl, n, g)
 		}
 		return n
 	case "delete":
@@ -446,7 +516,7 @@ func (x *FnExec) builtin(fr *Frame, b *ssa.Builtin, cc *ssa.CallCommon, st *Stat
 }
 
 // copyElems: dst[0:n] = src[0:n] (memmove semantics), everything else unchanged.
-func (x *FnExec) copyElems(st *State, et types.Type, dst, src *SliceV, n *Term) {
+func (x *FnExec) copyElems(st *State, et types.Type, dst, src *SliceV, n *Term, g *Term) {
 	tc := x.tc
 	var ls []leaf
 	x.leaves(et, "", &ls)
@@ -459,9 +529,13 @@ func (x *FnExec) copyElems(st *State, et types.Type, dst, src *SliceV, n *Term) 
 		oldS := tc.Select(h, src.arr)
 		newA := tc.Fresh("copy", as)
 		i := tc.BVar("i", x.refSort())
+		j := tc.BVar("j", x.refSort())
+		z := x.refConst(0)
+		// copied part (relative index), and everything else unchanged
+		x.assume(g, tc.Forall([]*Term{j}, tc.Implies(tc.And(x.intLe(z, j), x.intLt(j, n)),
+			tc.Eq(tc.Select(newA, x.intAdd(dst.off, j)), tc.Select(oldS, x.intAdd(src.off, j))))))
 		inside := tc.And(x.intLe(dst.off, i), x.intLt(i, x.intAdd(dst.off, n)))
-		body := tc.Eq(tc.Select(newA, i), tc.Ite(inside, tc.Select(oldS, x.intAdd(x.intSub(i, dst.off), src.off)), tc.Select(oldD, i)))
-		x.addFact(tc.Forall([]*Term{i}, body))
+		x.assume(g, tc.Forall([]*Term{i}, tc.Eq(tc.Select(newA, i), tc.Ite(inside, tc.Select(oldS, x.intAdd(x.intSub(i, dst.off), src.off)), tc.Select(oldD, i)))))
 		st.setHeap(key, tc.Store(h, dst.arr, newA))
 	}
 }
@@ -491,7 +565,16 @@ func (x *FnExec) appendBuiltin(fr *Frame, cc *ssa.CallCommon, st *State, g *Term
 	resCap := tc.Ite(fits, s.cp, newCap)
 	// nothing appended: Go returns the slice unchanged
 	isEmpty := tc.Eq(n, x.refConst(0))
-	res := &SliceV{tc.Ite(isEmpty, s.arr, resArr), tc.Ite(isEmpty, s.off, resOff), newLen, tc.Ite(isEmpty, s.cp, resCap)}
+	// name the result components (ite terms inside quantifier patterns defeat E-matching)
+	name := func(prefix string, def *Term) *Term {
+		if def.op != "ite" {
+			return def
+		}
+		v := tc.Fresh(prefix, def.sort)
+		x.assume(g, tc.Eq(v, def))
+		return v
+	}
+	res := &SliceV{name("app.arr", tc.Ite(isEmpty, s.arr, resArr)), name("app.off", tc.Ite(isEmpty, s.off, resOff)), newLen, name("app.cap", tc.Ite(isEmpty, s.cp, resCap))}
 	var ls []leaf
 	x.leaves(et, "", &ls)
 	for _, l := range ls {
@@ -504,11 +587,24 @@ func (x *FnExec) appendBuiltin(fr *Frame, cc *ssa.CallCommon, st *State, g *Term
 		oldA := tc.Select(h, add.arr)
 		newA := tc.Fresh("app", as)
 		i := tc.BVar("i", x.refSort())
-		inOld := tc.And(x.intLe(res.off, i), x.intLt(i, x.intAdd(res.off, s.ln)))
-		inNew := tc.And(x.intLe(x.intAdd(res.off, s.ln), i), x.intLt(i, x.intAdd(res.off, newLen)))
-		val := tc.Ite(inNew, tc.Select(oldA, x.intAdd(x.intSub(i, x.intAdd(res.off, s.ln)), add.off)),
+		j := tc.BVar("j", x.refSort())
+		z := x.refConst(0)
+		base := x.intAdd(res.off, s.ln)
+		// kept part, appended part (relative indexes give clean instantiation terms), and the rest unchanged
+		x.assume(g, tc.Forall([]*Term{j}, tc.Implies(tc.And(x.intLe(z, j), x.intLt(j, s.ln)),
+			tc.Eq(tc.Select(newA, x.intAdd(res.off, j)), tc.Select(oldS, x.intAdd(s.off, j))))))
+		x.assume(g, tc.Forall([]*Term{j}, tc.Implies(tc.And(x.intLe(z, j), x.intLt(j, n)),
+			tc.Eq(tc.Select(newA, x.intAdd(base, j)), tc.Select(oldA, x.intAdd(add.off, j))))))
+		if c, ok := n.intConst(); ok && c.Int64() <= 4 {
+			for k := int64(0); k < c.Int64(); k++ {
+				x.assume(g, tc.Eq(tc.Select(newA, x.intAdd(base, x.refConst(k))), tc.Select(oldA, x.intAdd(add.off, x.refConst(k)))))
+			}
+		}
+		inOld := tc.And(x.intLe(res.off, i), x.intLt(i, base))
+		inNew := tc.And(x.intLe(base, i), x.intLt(i, x.intAdd(res.off, newLen)))
+		val := tc.Ite(inNew, tc.Select(oldA, x.intAdd(x.intSub(i, base), add.off)),
 			tc.Ite(inOld, tc.Select(oldS, x.intAdd(x.intSub(i, res.off), s.off)), tc.Select(oldR, i)))
-		x.addFact(tc.Forall([]*Term{i}, tc.Eq(tc.Select(newA, i), val)))
+		x.assume(g, tc.Forall([]*Term{i}, tc.Eq(tc.Select(newA, i), val)))
 		st.setHeap(key, tc.Store(h, res.arr, newA))
 	}
 	x.sliceFacts(res)
